@@ -18,6 +18,73 @@ use incan_core::lang::keywords;
 use incan_core::lang::surface::constructors;
 use incan_core::lang::types::collections;
 
+/// Verification hooks (compiled only with `--cfg incan_verif`; see /verif/DESIGN.md).
+///
+/// `yield_point(label, uri, version)` is awaited immediately before each real `.await` of the
+/// document handlers. When the scheduler is inactive it is ready at once; when active it stays
+/// pending until the harness grants that handler its next step, which makes every interleaving of
+/// the handlers at their await boundaries realisable (and replayable) in the real server.
+#[cfg(incan_verif)]
+pub mod verif {
+    use std::future::Future;
+    use std::pin::Pin;
+    use std::sync::Mutex;
+    use std::task::{Context, Poll};
+
+    pub struct Sched {
+        /// When true, every yield point returns Pending until granted.
+        pub active: bool,
+        /// Key (uri, version) of the handler allowed to pass its next yield point.
+        pub grant: Option<(String, i32)>,
+        /// Log of passed yield points: (label, uri, version).
+        pub log: Vec<(String, String, i32)>,
+        /// Where each handler currently waits: (label, uri, version).
+        pub waiting: Vec<(String, String, i32)>,
+    }
+    pub static SCHED: Mutex<Sched> = Mutex::new(Sched {
+        active: false,
+        grant: None,
+        log: Vec::new(),
+        waiting: Vec::new(),
+    });
+
+    pub struct Yield {
+        label: &'static str,
+        uri: String,
+        ver: i32,
+    }
+    pub fn yield_point(label: &'static str, uri: &str, ver: i32) -> Yield {
+        Yield {
+            label,
+            uri: uri.to_string(),
+            ver,
+        }
+    }
+    impl Future for Yield {
+        type Output = ();
+        fn poll(self: Pin<&mut Self>, _cx: &mut Context<'_>) -> Poll<()> {
+            let mut s = match SCHED.lock() {
+                Ok(g) => g,
+                Err(p) => p.into_inner(),
+            };
+            if !s.active {
+                return Poll::Ready(());
+            }
+            let key = (self.uri.clone(), self.ver);
+            s.waiting.retain(|w| !(w.1 == key.0 && w.2 == key.1));
+            if s.grant.as_ref() == Some(&key) {
+                s.grant = None;
+                let e = (self.label.to_string(), key.0, key.1);
+                s.log.push(e);
+                Poll::Ready(())
+            } else {
+                s.waiting.push((self.label.to_string(), key.0, key.1));
+                Poll::Pending
+            }
+        }
+    }
+}
+
 /// Document state stored by the LSP
 #[derive(Debug, Clone)]
 pub struct DocumentState {
@@ -51,6 +118,28 @@ impl IncanLanguageServer {
         }
     }
 
+    /// Verification accessor: the stored documents as (uri, version, source, has_ast), or `None`
+    /// while a writer holds the document map.
+    #[cfg(incan_verif)]
+    pub fn verif_snapshot(&self) -> Option<Vec<(String, i32, String, bool)>> {
+        let docs = self.documents.try_read().ok()?;
+        let mut v: Vec<(String, i32, String, bool)> = docs
+            .iter()
+            .map(|(u, d)| (u.to_string(), d.version, d.source.clone(), d.ast.is_some()))
+            .collect();
+        v.sort();
+        Some(v)
+    }
+
+    /// `verif/snapshot` custom request (registered only by the verification harness).
+    #[cfg(incan_verif)]
+    pub async fn verif_snapshot_rpc(&self) -> Result<serde_json::Value> {
+        Ok(match self.verif_snapshot() {
+            Some(docs) => serde_json::json!({ "locked": false, "docs": docs }),
+            None => serde_json::json!({ "locked": true }),
+        })
+    }
+
     /// Record the latest announced version of `uri` (`None` when the document was closed).
     fn announce(&self, uri: &Url, version: Option<i32>) {
         let mut latest = match self.latest.lock() {
@@ -81,6 +170,8 @@ impl IncanLanguageServer {
     async fn store_and_publish(&self, uri: &Url, state: DocumentState, diagnostics: Vec<Diagnostic>) {
         let version = state.version;
         {
+            #[cfg(incan_verif)]
+            verif::yield_point("Y3", uri.as_str(), version).await;
             let mut docs = self.documents.write().await;
             if !self.is_latest(uri, version) {
                 return;
@@ -91,6 +182,8 @@ impl IncanLanguageServer {
         if !self.is_latest(uri, version) {
             return;
         }
+        #[cfg(incan_verif)]
+        verif::yield_point("Y4", uri.as_str(), version).await;
         // Publish diagnostics (even if empty, to clear old ones)
         self.client
             .publish_diagnostics(uri.clone(), diagnostics, Some(version))
@@ -193,6 +286,8 @@ impl IncanLanguageServer {
         };
         let entry_base = entry_path.parent().unwrap_or(Path::new(".")).to_path_buf();
 
+        #[cfg(incan_verif)]
+        verif::yield_point("Y1", uri.as_str(), _entry_version).await;
         let docs = self.documents.read().await;
 
         let mut result: Vec<(String, Program)> = Vec::new();
@@ -238,6 +333,8 @@ impl IncanLanguageServer {
                             diags.push(compile_error_to_diagnostic(e, &dep_source, &u));
                         }
                         let ver = dep_doc.map(|d| d.version);
+                        #[cfg(incan_verif)]
+                        verif::yield_point("Y2", uri.as_str(), _entry_version).await;
                         self.client.publish_diagnostics(u.clone(), diags, ver).await;
                     }
 
@@ -270,6 +367,8 @@ impl IncanLanguageServer {
                             diags.push(compile_error_to_diagnostic(e, &dep_source, &u));
                         }
                         let ver = dep_doc.map(|d| d.version);
+                        #[cfg(incan_verif)]
+                        verif::yield_point("Y2", uri.as_str(), _entry_version).await;
                         self.client.publish_diagnostics(u.clone(), diags, ver).await;
                     }
 
@@ -295,6 +394,8 @@ impl IncanLanguageServer {
             // Dependency parsed successfully: clear old dependency diagnostics if any.
             if let Some(u) = dep_uri.clone() {
                 let ver = dep_doc.map(|d| d.version);
+                #[cfg(incan_verif)]
+                verif::yield_point("Y2", uri.as_str(), _entry_version).await;
                 self.client.publish_diagnostics(u.clone(), vec![], ver).await;
             }
 
@@ -564,11 +665,15 @@ impl LanguageServer for IncanLanguageServer {
         let uri = params.text_document.uri;
         self.announce(&uri, None);
 
+        #[cfg(incan_verif)]
+        verif::yield_point("Yc1", uri.as_str(), 0).await;
         // Remove document from cache
         let mut docs = self.documents.write().await;
         docs.remove(&uri);
 
         // Clear diagnostics
+        #[cfg(incan_verif)]
+        verif::yield_point("Yc2", uri.as_str(), 0).await;
         self.client.publish_diagnostics(uri, vec![], None).await;
     }
 
